@@ -76,6 +76,11 @@ func lzmaWriteCase(r *core.Run, prop string, p LZWCase) {
 	cs := core.MkCase(prop, "lzmawrite", p)
 	sink, calls, verr, pan := lzmaWriteExec(p, data)
 	if verr != nil {
+		// every enumerated configuration lies in the domain the statement names (lc 0-8, lp 0-4,
+		// pb 0-4, DictCap >= 4096, BufSize >= 273, both matchers, size and / or end marker)
+		if prop == "C06" {
+			r.Violate(cs, "lzmaW valid-configuration-rejected-by-Verify", fmt.Sprintf("cfg=%s", p.Cfg), errStr(verr), "accepted (the statement's domain: lc 0-8, lp 0-4, pb 0-4, any dictionary / look-ahead size the format allows)")
+		}
 		r.Count("config_rejected_by_Verify", 1)
 		return
 	}
@@ -378,6 +383,8 @@ func lzmaWCases(r *core.Run, prop string) []LZWCase {
 	}
 	// writer dictionary above the reader's default 8 MiB with a repeat farther back than that
 	add(LZWCase{Cfg: LZCfg{DictCap: 12 << 20}, Shape: []Seg{{K: "T", Seed: 9, N: 3000}, {K: "R", Seed: 9, N: 8<<20 + 70000}, {K: "K", N: 3000}}})
+	// a dictionary above 16 MiB (the header's dictionary size needs its fourth byte) with a repeat 17 MiB back
+	add(LZWCase{Cfg: LZCfg{DictCap: 20 << 20}, Shape: []Seg{{K: "T", Seed: 10, N: 3000}, {K: "Z", N: 17 << 20}, {K: "K", N: 3000}}})
 	if prop == "C07" {
 		return cases
 	}
